@@ -62,9 +62,19 @@ Example ex_containment_hyps :
   exists o g, referral_glue false [] 2 example_com q m = Some (o, g) /\ gr_found4 g = [ns_example_com].
 Proof. cbn zeta. repeat split. eexists. eexists. vm_compute. split; reflexivity. Qed.
 
-Example ex_descent_guarded :
-  steps_guarded (descent_start []) [StepMinimize; StepCached (com ++ [[101]]); StepUncached www_example_com].
-Proof. cbn. repeat split; lia. Qed.
+(* a descent mixing all three kinds of step; the cached one crosses two labels *)
+Example ex_descent :
+  descent [] [StepMinimize; StepCached example_com; StepCached www_example_com] = (www_example_com, 3%nat).
+Proof. reflexivity. Qed.
+
+(* regression examples about the code before commit 767eb6f *)
+Example ex_old_level_short :
+  fold_left descent_step_old [StepCached evil_l3] (descent_start []) = (evil_l3, 1%nat) /\
+  descent [] [StepCached evil_l3] = (evil_l3, 2%nat).
+Proof. split; reflexivity. Qed.
+Example ex_old_relay_tail :
+  In w_tail (u_answer w_msg) /\ relayed_answer w_auth w_q w_msg = [w_alias].
+Proof. split; vm_compute; auto. Qed.
 
 Example ex_cacheable :
   cacheable_answer www_example_com
